@@ -87,7 +87,7 @@ func registerModelProp(mp *modelProp) {
 	wk.Register(&wk.Engine{
 		ID: mp.id,
 		Plan: func(tier string) fw.Plan {
-			n := 8000
+			n := 32000
 			if mp.nQuick > 0 {
 				n = mp.nQuick
 			}
